@@ -279,7 +279,8 @@ Proof.
   rewrite Hel. reflexivity.
 Qed.
 
-(* a failing run was refused at construction, or failed at a reachable round satisfying [Inv],
+(* a failing run was refused at construction (ValueError; or, since the up-front check of the
+   random transfer, TypeError for a non-integral weight), or failed at a reachable round satisfying [Inv],
    for every extra invariant [Inv] that holds initially and is preserved by successful rounds *)
 Theorem run_error_round : forall cfg (p : profile) (s : mstate) e
     (Inv : Q -> profile -> list estate -> Prop),
@@ -294,6 +295,7 @@ Theorem run_error_round : forall cfg (p : profile) (s : mstate) e
      Inv t np (st :: prev :: older)) ->
   run_stv cfg p s = inr e ->
   (e = EValue /\ (~ (1 <= s_m cfg <= Z.of_nat (length (cands p)))%Z \/ s_quota cfg = QBad)) \/
+  (e = EType /\ s_transfer cfg = TRandom /\ ~ integral_weights cand p) \/
   exists t (pr : profile) prev older (s1 : mstate),
     stv_init cfg p = inl t /\
     stv_inv cfg t (total_wt (ballots p)) p pr (prev :: older) /\ Inv t pr (prev :: older) /\
@@ -305,7 +307,7 @@ Proof.
   pose proof (run_stv_no_fuel cand ceqb ceqb_spec cfg p s Hwf Hscr) as Hnf.
   rewrite (run_stv_unfold cand ceqb) in H, Hnf.
   destruct (stv_init cfg p) as [t|e0] eqn:Ei.
-  - right. destruct (initial_state_ok cand ceqb ceqb_spec p Hwf) as [s0 E0]. rewrite E0 in H, Hnf.
+  - right. right. destruct (initial_state_ok cand ceqb ceqb_spec p Hwf) as [s0 E0]. rewrite E0 in H, Hnf.
     pose proof (stv_inv_init cand ceqb cfg p t s0 Hwf Ei E0) as Hinv.
     destruct (loop_error_round cfg t _ p (Inv t)
                 (fun pr prev older s1 s' np st => Hpres t pr prev older s1 s' np st eq_refl)
@@ -313,8 +315,10 @@ Proof.
       as [->|(pr & prev & older & s1 & H1 & H2 & H3 & H4 & H5)].
     + exfalso. apply Hnf. exact H.
     + exists t, pr, prev, older, s1. repeat (split; [first [reflexivity|assumption]|]). exact H5.
-  - left. injection H as <-. destruct (stv_init_err cand cfg p e0 Hwf Ei) as [-> Hc].
-    split; [reflexivity|exact Hc].
+  - injection H as <-.
+    destruct (stv_init_err_gen cand cfg p e0 Hwf Ei) as [(-> & Ht & Hn)|(-> & _ & Hc)].
+    + right. left. split; [reflexivity|]. split; [exact Ht|exact Hn].
+    + left. split; [reflexivity|exact Hc].
 Qed.
 
 End WithCand.
